@@ -1,7 +1,14 @@
 (* Parser/StreamInv.v — the protocol-level theorems about the abstract stream machine
-   (Parser/AbsStream.v) against the specification functions of Parser/StreamSpec.v:
-   totality, per-call conservation of stream content / later-stream content / replies,
-   end-of-stream reporting, sticky errors, the other operations, and schedules. *)
+   (Parser/AbsStream.v) against the specification functions of Parser/StreamSpec.v.
+   Main results (all for an arbitrary max_conns, closed under the global context):
+     T_total T_content T_later T_replies T_end T_sticky   the target statements of StreamSpec.v
+     content_law later_law replies_law                    the same without the unused [bytes_ok u]
+     consume_stream_law/_inv compress_law/_inv compress_space_max consume_output_law/_inv
+     set_stream_law set_stream_none F_none                the other operations
+     schedule_law two_epoch_law                           arbitrary schedules of legal calls
+   Structure: A fuel irrelevance of content_from / replies_all and their unfolding equations (CF, RA);
+   B stage equations and "advance" lemmas; C one loop iteration preserves the relation [pres];
+   D the call; E other operations; F schedules. *)
 From Coq Require Import ZArith ZifyBool ZifyNat ZifyN.
 From FV Require Import Base.Bytes Base.BytesLemmas Gen.Generated Codec.Varint Codec.VarintProofs
   Codec.NV Codec.NVProofs Codec.Header Codec.Bodies Codec.Vars Codec.ProtoProofs
@@ -1363,9 +1370,16 @@ Proof.
 Qed.
 
 (* ---- T1: content conservation ---- *)
-Theorem T_content : T_content_stmt maxc.
+(* (the hypothesis [bytes_ok u] of the target statements is not needed: the not yet fed bytes are arbitrary) *)
+Lemma content_law a new dest u a' s :
+  a_inv a -> legal a new dest ->
+  (aparse maxc a new dest = AOk a' s \/ exists e, aparse maxc a new dest = AFail a' e s) ->
+  K a (new ++ u) = s_dest s ++ K a' u /\
+  a_stream a' = a_stream a /\ a_req a' = a_req a /\
+  (dest = None -> s_dest s = [] /\ exists d, a_parsed a' = a_parsed a ++ d /\ s_stream s = len d) /\
+  (forall c, dest = Some c -> a_parsed a' = [] /\ s_stream s = len (s_dest s) /\ len (s_dest s) <= c).
 Proof.
-  intros a new dest u a' s Hinv Hleg Hu Hres.
+  intros Hinv Hleg Hres.
   destruct (aparse_pres a new dest a' s Hinv Hleg Hres) as [l' [Ea [Es [P I]]]]. subst a' s.
   split.
   { pose proof (p_K _ _ P u) as H. cbn [l0 al ares res0 s_dest app] in H. rewrite K_feed in H. exact H. }
@@ -1378,24 +1392,39 @@ Proof.
     split; [exact Hp|]. rewrite Hd. split; lia.
 Qed.
 
+Theorem T_content : T_content_stmt maxc.
+Proof. intros a new dest u a' s Hinv Hleg _ Hres. apply (content_law a new dest u a' s Hinv Hleg Hres). Qed.
+
 (* ---- T2: later streams untouched ---- *)
-Theorem T_later : T_later_stmt maxc.
+Lemma later_law a new dest u a' s sg :
+  a_inv a -> legal a new dest -> later_stream a sg ->
+  (aparse maxc a new dest = AOk a' s \/ exists e, aparse maxc a new dest = AFail a' e s) ->
+  F (Some sg) a (new ++ u) = F (Some sg) a' u.
 Proof.
-  intros a new dest u a' s sg Hinv Hleg Hu Hl Hres.
+  intros Hinv Hleg Hl Hres.
   destruct (aparse_pres a new dest a' s Hinv Hleg Hres) as [l' [Ea [Es [P I]]]]. subst a' s.
   rewrite <- (F_feed (Some sg) a new u). apply (p_F _ _ P). exact Hl.
 Qed.
 
+Theorem T_later : T_later_stmt maxc.
+Proof. intros a new dest u a' s sg Hinv Hleg _ Hl Hres. apply (later_law a new dest u a' s sg Hinv Hleg Hl Hres). Qed.
+
 (* ---- T3: replies ---- *)
-Theorem T_replies : T_replies_stmt maxc.
+Lemma replies_law a new dest u a' s :
+  a_inv a -> legal a new dest ->
+  (aparse maxc a new dest = AOk a' s \/ exists e, aparse maxc a new dest = AFail a' e s) ->
+  R maxc a (new ++ u) = R maxc a' u /\ exists o, a_out a' = a_out a ++ o /\ s_output s = len o.
 Proof.
-  intros a new dest u a' s Hinv Hleg Hu Hres.
+  intros Hinv Hleg Hres.
   destruct (aparse_pres a new dest a' s Hinv Hleg Hres) as [l' [Ea [Es [P I]]]]. subst a' s.
   split.
   - rewrite <- (R_feed a new u). apply (p_R _ _ P).
   - destruct (p_out _ _ P) as [o [Ho Hs]]. exists o. split; [exact Ho|].
     cbn [l0 ares res0 s_output] in Hs. lia.
 Qed.
+
+Theorem T_replies : T_replies_stmt maxc.
+Proof. intros a new dest u a' s Hinv Hleg _ Hres. apply (replies_law a new dest u a' s Hinv Hleg Hres). Qed.
 
 (* ---- T4: end of stream ---- *)
 Theorem T_end : T_end_stmt maxc.
@@ -1683,6 +1712,36 @@ Proof.
     unfold later_stream in *. rewrite S1, Q1. exact Hl.
 Qed.
 
+(* two epochs: a schedule on the active stream, then a later stream is selected, then a second schedule.
+   What the second epoch hands to the caller (followed by what it still owes) is exactly the content of
+   the later stream as seen from the very first state: bytes of the later stream that arrived during
+   the first epoch were neither consumed nor lost. *)
+Theorem two_epoch_law ops1 ops2 a sg a1 : a_inv a -> later_stream a sg ->
+  sched_legal a ops1 ->
+  aset_stream (fst (fst (srun a ops1))) (Some sg) = ASetOk a1 ->
+  sched_legal a1 ops2 ->
+  forall u, snd (fst (srun a1 ops2)) ++ K (fst (fst (srun a1 ops2))) u = F (Some sg) a (fed ops1 ++ fed ops2 ++ u) /\
+            snd (srun a ops1) ++ snd (srun a1 ops2) ++ R maxc (fst (fst (srun a1 ops2))) u
+            = R maxc a (fed ops1 ++ fed ops2 ++ u).
+Proof.
+  intros Hinv Hl Hleg1 Hset Hleg2 u.
+  destruct (schedule_law ops1 a Hinv Hleg1) as [I1 [S1 [Q1 L1]]].
+  destruct (L1 (fed ops2 ++ u)) as [_ [R1 F1]].
+  destruct (set_stream_law _ (Some sg) a1 (fed ops2 ++ u) I1 Hset) as [_ [Hne [HR [_ I2]]]].
+  assert (Hdiff : optN_eqb (Some sg) (a_stream (fst (fst (srun a ops1)))) = false).
+  { rewrite S1. unfold later_stream in Hl. destruct (a_stream a) as [c|]; [|contradiction].
+    cbn [optN_eqb]. destruct (N.eqb_spec sg c) as [E|_]; [|reflexivity].
+    subst c. unfold cmp_input_streams in Hl.
+    destruct (negb (is_input_stream sg) || negb (is_input_stream sg)); [discriminate Hl|].
+    rewrite N.eqb_refl in Hl. discriminate Hl. }
+  destruct (Hne Hdiff) as [_ [_ [_ [_ [_ HK]]]]].
+  destruct (schedule_law ops2 a1 I2 Hleg2) as [_ [_ [_ L2]]].
+  destruct (L2 u) as [K2 [R2 _]].
+  split.
+  - rewrite <- K2, HK. symmetry. apply F1. exact Hl.
+  - rewrite R1, <- HR, R2. reflexivity.
+Qed.
+
 End Machine.
 
 Print Assumptions T_total.
@@ -1700,3 +1759,49 @@ Print Assumptions consume_output_law.
 Print Assumptions set_stream_law.
 Print Assumptions set_stream_none.
 Print Assumptions schedule_law.
+Print Assumptions two_epoch_law.
+
+(* the target statements of Parser/StreamSpec.v, for every max_conns *)
+Theorem stream_targets maxc :
+  T_total_stmt maxc /\ T_content_stmt maxc /\ T_later_stmt maxc /\ T_replies_stmt maxc /\
+  T_end_stmt maxc /\ T_sticky_stmt maxc.
+Proof.
+  split; [apply T_total|]. split; [apply T_content|]. split; [apply T_later|].
+  split; [apply T_replies|]. split; [apply T_end|apply T_sticky].
+Qed.
+Print Assumptions stream_targets.
+
+(* ---- the hypotheses are satisfiable by a non-trivial instance ---- *)
+Definition ex_rq : req := mkReq 1 ROLE_Filter 0 [].
+Definition ex_a : ast := mkA 96 96 [] [] [] ex_rq (Some RT_Stdin) 0 0 SSkip.
+Definition ex_new : bytes :=
+  [1;5;0;1;0;3;1;0; 97;98;99; 0] ++                                        (* Stdin "abc", 1 byte padding *)
+  [1;9;0;0;0;16;0;0; 14;0; 70;67;71;73;95;77;65;88;95;67;79;78;78;83] ++   (* GetValues FCGI_MAX_CONNS *)
+  [1;8;0;1;0;2;0;0; 120;121] ++                                            (* Data "xy": a later stream *)
+  [1;5;0;1;0;0;0;0].                                                       (* (unreached) *)
+
+Example ex_inv : a_inv ex_a.
+Proof.
+  unfold a_inv, a_ok. cbn [ex_a a_B a_space a_parsed a_raw a_prem a_pad a_st a_stream].
+  repeat split; try (vm_compute; congruence); try discriminate. constructor.
+Qed.
+
+Example ex_legal : legal ex_a ex_new None /\ legal ex_a ex_new (Some 2).
+Proof.
+  assert (Hb : bytes_ok ex_new) by (apply bytes_okb_ok; vm_compute; reflexivity).
+  split; (split; [exact Hb|split; [vm_compute; congruence|intros _; reflexivity]]).
+Qed.
+
+Example ex_later : later_stream ex_a RT_Data.
+Proof. vm_compute. reflexivity. Qed.
+
+Example ex_values :
+  K ex_a ex_new = [97;98;99] /\ F (Some RT_Data) ex_a ex_new = [120;121] /\ len (R 10 ex_a ex_new) = 32 /\
+  (exists a' s, aparse 10 ex_a ex_new None = AOk a' s /\ a_parsed a' = [97;98;99] /\ s_stream s = 3 /\
+                s_end s = true /\ s_output s = 32 /\ len (a_raw a') = 18) /\
+  (exists a' s, aparse 10 ex_a ex_new (Some 2) = AOk a' s /\ s_dest s = [97;98] /\ s_end s = false /\
+                a_prem a' = 1 /\ K a' [] = [99]).
+Proof.
+  split; [vm_compute; reflexivity|]. split; [vm_compute; reflexivity|]. split; [vm_compute; reflexivity|].
+  split; eexists; eexists; (split; [vm_compute; reflexivity|]); vm_compute; repeat split; reflexivity.
+Qed.
